@@ -76,14 +76,22 @@ func (k *KVStore) isTableExpired(recycledAt int64) bool {
 	return (time.Now().UnixNano() / 1000000) >= limit
 }
 
-func (k *KVStore) isCompactionOK(t *table.Table) bool {
+func (k *KVStore) isCompactionOK(t *table.Table, writable bool) bool {
 	s := t.Stats()
-	return float64(s.Garbage) >= float64(s.Allocated)*maxGarbageRatio
+	size := s.Allocated
+	if !writable {
+		// Nothing is appended to this table anymore. Its unused tail must not
+		// dilute the ratio: a table that was sealed half empty, or that holds
+		// nothing but dead entries, would never reach the threshold and stay
+		// allocated forever.
+		size = s.Inuse + s.Garbage
+	}
+	return s.Garbage > 0 && float64(s.Garbage) >= float64(size)*maxGarbageRatio
 }
 
 func (k *KVStore) Compaction() (bool, error) {
 	for i, t := range k.tables {
-		if k.isCompactionOK(t) {
+		if k.isCompactionOK(t, i == len(k.tables)-1) {
 			if i == len(k.tables)-1 {
 				// This is the table that accepts the writes. Its live entries cannot be
 				// moved into itself, start a new one first.
